@@ -22,6 +22,7 @@ import (
 	"runtime/pprof"
 	"sort"
 	"strings"
+	"sync"
 	"time"
 
 	"github.com/ozontech/file.d/pipeline"
@@ -137,24 +138,59 @@ func indexRangePanic(obs hx.Sx) bool {
 	return strings.HasPrefix(o, "(2 #") && strings.HasSuffix(o, hex.EncodeToString([]byte(" index-range"))+")")
 }
 
+// exhaustedNodePool: the precise classification of the finding, by two more runs of the case:
+//  1. with the production node pool again, recording the stack of the panic: it must be an index out of
+//     range raised inside insane-json's decoder taking a node (getNode = AddField / AddFieldNoAlloc /
+//     MutateToJSON of some action, or decode = the next DecodeBytesAdditional);
+//  2. with a node pool of 512 under every input Root: the case must run clean (so the only thing wrong was
+//     the pool being full, which only the unchecked top-level-scalar path of DecodeBytesAdditional can leave
+//     behind: every other path grows the pool before it is full).
+func exhaustedNodePool(cs hx.Sx) bool {
+	stack := ""
+	var mu sync.Mutex // the twin streams panic on two goroutines
+	stackProbe = func(s string) {
+		mu.Lock()
+		if stack == "" {
+			stack = s
+		}
+		mu.Unlock()
+	}
+	execChain(cs, map[string]int{})
+	stackProbe = nil
+	if !strings.Contains(stack, "index out of range") ||
+		!(strings.Contains(stack, "insane-json.(*decoder).getNode") || strings.Contains(stack, "insane-json.(*decoder).decode(")) {
+		return false
+	}
+	bigNodePool = true
+	roomy := execChain(cs, map[string]int{})
+	bigNodePool = false
+	return hx.String(roomy) == "(1)"
+}
+
 // emit: c.Do for the generic layer. A case belongs to the finding iff its chain contains a decoding
 // action, its run ends in an index-out-of-range panic, AND the same case runs clean when every input Root
 // starts with a node pool of 512 instead of the production 16 (so the panic is the exhausted node pool and
 // nothing else: with room in the pool the unchecked scalar path is harmless).
 func emit(c *hmain.Ctx, stream string, which int, cs hx.Sx, nontrivial bool) hx.Sx {
-	if decodesOnTop(cs) && indexRangePanic(execChain(cs, map[string]int{})) {
-		bigNodePool = true
-		roomy := execChain(cs, map[string]int{})
-		bigNodePool = false
-		if hx.String(roomy) == "(1)" {
-			if !scalarListed {
-				c.W.Count("withheld_until_listed:" + scalarFindingID)
-				return hx.L(hx.I(obsOK))
-			}
-			stream = scalarStream
+	// hmain.Ctx.Do, with the stream name chosen after the run
+	if c.Cur != nil {
+		line := fmt.Sprintf("%s\t%d\t%s\n", stream, which, hx.String(cs))
+		if len(line) < 1<<16 {
+			c.Cur.Truncate(0)
+			c.Cur.WriteAt([]byte(line), 0)
 		}
 	}
-	return c.Do(stream, which, cs, nontrivial)
+	obs := c.Prop.Exec(which, cs)
+	if indexRangePanic(obs) && decodesOnTop(cs) && exhaustedNodePool(cs) {
+		if !scalarListed {
+			c.W.Count("withheld_until_listed:" + scalarFindingID)
+			return obs
+		}
+		c.W.Count("routed_to_" + scalarStream + "_from_" + stream)
+		stream = scalarStream
+	}
+	c.W.Case(stream, which, cs, obs, nontrivial)
+	return obs
 }
 
 // settings that matter to a plugin (only the k8s multiline action reads them)
